@@ -461,39 +461,55 @@ func runC18(c *Ctx) {
 	// R6 flush empties the holding area
 	o = c.Obl("R6", fname(push), "when a reorder burst completes the stack is appended to the queue (queue = append(queue, stack...)) and then reset to nil before the lock is released: no aliasing, no second delivery", 2)
 	for _, dir := range []struct{ q, s string }{{"queue0to1", "stack0"}, {"queue1to0", "stack1"}} {
-		var flush *ssa.Store
+		// a helper instantiated once per direction (it receives the addresses of this direction's fields): analyse
+		// the instantiation of this direction
+		var site ssa.Instruction
 		instrsOfU(push, func(in ssa.Instruction) {
-			st, ok := in.(*ssa.Store)
-			if !ok || !isFieldStore(st, "test.Bridge", dir.q) {
-				return
-			}
-			if a0, a1, ok := appendOf(st.Val, 0); ok && isFieldLoad(a1, "test.Bridge", dir.s) {
-				flush = st
-				if !isFieldLoad(a0, "test.Bridge", dir.q) {
-					o.Fail(in.Pos(), "the flushed stack is not appended to the existing queue")
+			if cl, ok := in.(*ssa.Call); ok && helperCallee(cl) != nil {
+				for _, a := range cl.Call.Args {
+					if fa, ok := a.(*ssa.FieldAddr); ok {
+						if fr, ok := asFieldAddr(fa); ok && fr.SName == "test.Bridge" && fr.Field == dir.q {
+							site = in
+						}
+					}
 				}
-			} else if derivesFrom(st.Val, func(v ssa.Value) bool { return isFieldLoad(v, "test.Bridge", dir.s) }, false) {
-				o.Fail(in.Pos(), "the stack itself is installed as the queue (%s aliases %s): later pushes onto the stack overwrite queued messages", dir.q, dir.s)
 			}
 		})
-		if flush == nil {
-			o.Fail(push.Pos(), "no flush of %s into %s", dir.s, dir.q)
-			continue
-		}
-		o.Site(flush.Pos(), "flush of %s", dir.s)
-		isReset := func(in ssa.Instruction) bool {
-			st, ok := in.(*ssa.Store)
-			return ok && isFieldStore(st, "test.Bridge", dir.s) && isNilConst(st.Val)
-		}
-		if ok, bad := mustPassU(posAfter(flush), isReturn, isReset); !ok {
-			o.Fail(bad.Pos(), "after flushing %s into the queue the stack is not reset to nil: the next reorder burst delivers the old messages again", dir.s)
-		}
-		instrsOfU(push, func(in ssa.Instruction) {
-			if st, ok := in.(*ssa.Store); ok && isFieldStore(st, "test.Bridge", dir.s) && !isNilConst(st.Val) {
-				if _, _, ok := appendOf(st.Val, 0); !ok {
-					o.Fail(in.Pos(), "%s is set to something else than nil or append(%s, data) (re-slicing keeps the backing array shared with the queue)", dir.s, dir.s)
+		withSite(site, func() {
+			var flush *ssa.Store
+			instrsOfU(push, func(in ssa.Instruction) {
+				st, ok := in.(*ssa.Store)
+				if !ok || !isFieldStore(st, "test.Bridge", dir.q) {
+					return
 				}
+				if a0, a1, ok := appendOf(st.Val, 0); ok && isFieldLoad(a1, "test.Bridge", dir.s) {
+					flush = st
+					if !isFieldLoad(a0, "test.Bridge", dir.q) {
+						o.Fail(in.Pos(), "the flushed stack is not appended to the existing queue")
+					}
+				} else if derivesFrom(st.Val, func(v ssa.Value) bool { return isFieldLoad(v, "test.Bridge", dir.s) }, false) {
+					o.Fail(in.Pos(), "the stack itself is installed as the queue (%s aliases %s): later pushes onto the stack overwrite queued messages", dir.q, dir.s)
+				}
+			})
+			if flush == nil {
+				o.Fail(push.Pos(), "no flush of %s into %s", dir.s, dir.q)
+				return
 			}
+			o.Site(flush.Pos(), "flush of %s", dir.s)
+			isReset := func(in ssa.Instruction) bool {
+				st, ok := in.(*ssa.Store)
+				return ok && isFieldStore(st, "test.Bridge", dir.s) && isNilConst(st.Val)
+			}
+			if ok, bad := mustPassU(posAfter(flush), isReturn, isReset); !ok {
+				o.Fail(bad.Pos(), "after flushing %s into the queue the stack is not reset to nil: the next reorder burst delivers the old messages again", dir.s)
+			}
+			instrsOfU(push, func(in ssa.Instruction) {
+				if st, ok := in.(*ssa.Store); ok && isFieldStore(st, "test.Bridge", dir.s) && !isNilConst(st.Val) {
+					if _, _, ok := appendOf(st.Val, 0); !ok {
+						o.Fail(in.Pos(), "%s is set to something else than nil or append(%s, data) (re-slicing keeps the backing array shared with the queue)", dir.s, dir.s)
+					}
+				}
+			})
 		})
 	}
 
